@@ -318,6 +318,41 @@ def c04_r6(ctx):
                  'is being re-emitted nobody reads the bounded feedback edge, the body\'s End blocks on it and the loop deadlocks', None)
 
 
+@rule('C04', 'R10', 'Iterate never blocks on one channel while another one it must keep draining is open: no blocking recv on the input alone; a blocking recv on feedback / state only once the input is gone')
+def c04_r10(ctx):
+    """Iterate is the only consumer of three bounded channels (loop input, feedback, state).  A blocking receive on one of them
+    while another is still open lets that other one fill up; its producer blocks, and when that producer is (transitively) what
+    the awaited channel depends on, the job never terminates.  The code's own idiom is `select` over the pair; a plain blocking
+    `recv` is legal only on feedback/state and only when `input_receiver` is None.  Read on the helper-inlined body of next()."""
+    facts = ctx.facts
+    nx = facts.method(ITERATE, 'next', trait=OP)
+    sym = q.sym(facts, nx)
+    n = 0
+    for bi, t in nx.calls():
+        pth = t['callee'].get('path') or ''
+        if not (pth.endswith('NetworkReceiver::<In>::recv') or pth.endswith('NetworkReceiver::<In>::recv_timeout')):
+            continue
+        rcv = render(strip(sym.operand(t['args'][0])))
+        which = [k for k in ('input_receiver', 'feedback_receiver', 'state_receiver') if k in rcv]
+        if len(which) != 1:
+            continue
+        n += 1
+        dnf = q.cond_of_block(facts, nx, bi)
+        ctx.inst('Iterate::next|blocking recv|%s|%s' % (which[0], t['at']), {'receiver': rcv[:120], 'clauses': len(dnf), 'sample': show_dnf(dnf)[:2]})
+        if which[0] == 'input_receiver':
+            ctx.viol('%s|blocks-on-input' % nx.path, t['at'],
+                     'Iterate blocks in recv() on its input channel alone: while it waits, nobody drains the bounded feedback / state channels; '
+                     'if the producers of the input (transitively) wait for the loop body - a diamond around the loop head - the job deadlocks', None)
+        elif not q.cond_has(dnf, lambda a: a[0] == 'is' and 'input_receiver' in a[1] and a[2] == 'None'):
+            ctx.viol('%s|blocks-with-input|%s' % (nx.path, which[0]), t['at'],
+                     'a blocking recv() on the %s channel is reachable while the input receiver still exists: the upstream of the loop blocks on a '
+                     'full input channel' % which[0].split('_')[0], None)
+    sels = [t['at'] for bi, t in nx.calls() if (t['callee'].get('path') or '').endswith('::select')]
+    ctx.inst('Iterate::next|select sites', {'select': sels})
+    if n == 0 and not sels:
+        raise AnchorMissing('Iterate::next contains neither blocking recv nor select on its channels')
+
+
 @rule('C10', 'R8', 'IterationStateLock generation protocol: lock makes an even generation odd, unlock makes it even and wakes all, waiters wait while gen < requested')
 def c10_r8(ctx):
     facts = ctx.facts
